@@ -2,7 +2,9 @@
 (* every small input of StaticCalculator.__call__ (non-tetra): NK k-points with NB in NBS sorted bands over 0..EMAX,
    thresholds THS, Kramers flag, Fermi grids (a+i d)/Q with a+ASHIFT in AS1, d in DS, n in NS, Q in QS, fder 0..3,
    k_resolved, band selections SELS; band values: "ones" (identity formula: CumDOS / DOS) or "generic" (powers of 5: the
-   result is linear in the band values, so a generic assignment decides every assignment).
+   result is linear in the band values, so a generic assignment decides every assignment; the harness also runs a rank-1
+   formula whose components are 1, 2, 4 times the scalar one: the same numbers by linearity).
+   n = 1 in NS is the single-level call (dEF guessed by the code, see SingleLevelOK).
    The accumulation runs k-point by k-point (one transition per k-point, as the loop of the code), then the differences. *)
 EXTENDS FermiScan
 CONSTANTS NK, NBS, EMAX, THS, QS, AS1, ASHIFT, DS, NS, SELS, WrongBinning
@@ -15,6 +17,7 @@ Values(mode, EE) == [k \in 1..Len(EE) |-> [b \in 1..Len(EE[k]) |-> IF mode = "on
 V == Values(vmode, E)
 Sel(x) == IF x = {} THEN NoSel ELSE [on |-> TRUE, bands |-> x]
 NoTie == \A k \in 1..NK : NoTieK(E[k], th, kr, grid, fder)
+NoLevelInsideGroup == \A k \in 1..NK : NoLevelInsideGroupK(E[k], th, kr, grid, fder)
 NKres == IF kres THEN NK ELSE 1
 (* sensitivity switch: floor+1 instead of ceil is the same away from ties; a plausible slip is floor (bin one too early) *)
 AccK(row, k) == IF WrongBinning THEN
@@ -35,8 +38,7 @@ Init == /\ \E nb \in NBS : E \in [1..NK -> SortedArrays(nb)]
         /\ Supported(fder, sel)
         /\ (sel.on => \A b \in sel.bands : b < Len(E[1]))
         /\ (NK = 1 => ~kres)
-        /\ (vmode = "ones" => ~sel.on)          \* band selections are explored with the generic values only
-        /\ NoTie
+        /\ NoTie /\ NoLevelInsideGroup /\ SingleLevelOK(grid, th)
         /\ pc = "acc" /\ ik = 1
         /\ X = [r \in 1..NKres |-> ZeroRow(grid, fder)]
         /\ res = <<>> /\ taken = {}
@@ -77,7 +79,8 @@ CumDosShape ==
       /\ \A i \in 1..grid.n : LET x == grid.a + (i - 1) * grid.d IN
             /\ (\A k \in 1..NK : x < E[k][1] * grid.Q) => res[1][i] = RZero
             /\ (\A k \in 1..NK : x > E[k][Len(E[k])] * grid.Q) => res[1][i] = RI(Len(E[1]))
-NonAdditiveSame == \A k \in 1..NK : \A j \in 1..Len(Borders(E[k], th, kr)) :
+(* the two input-independent / cheap clauses are evaluated on finished states only (every fder occurs there) *)
+NonAdditiveSame == Done => \A k \in 1..NK : \A j \in 1..Len(Borders(E[k], th, kr)) :
                       GroupValueNonAdditive(V[k], Borders(E[k], th, kr)[j]) = GroupValue(V[k], Borders(E[k], th, kr)[j])
-Stencils == \A n \in 0..3 : StencilExact(n)
+Stencils == Done => StencilExact(fder)
 =============================================================================
